@@ -1324,4 +1324,86 @@ theorem C14_set_values_container_independent {m : Mode} {h : Heap} {c lst : Nat}
 /-- Non-vacuity of the three container theorems: a caller's list `[5, 6]` at reference 0. -/
 example : getVals (newList Heap.empty [5, 6]).1 0 = some ([5, 6], false) := by decide +kernel
 
+/-! ### Round 5: operand pairs that are not alike; composites that keep a setting of their source -/
+
+/-- **Arithmetic leaves its second operand as it is, whatever the two operands' units are.**  `a + b`,
+    `a - b`, `a * b`, `a / b` with `b` a collection (base class and continuous override, mutable or
+    immutable, in the unit of `a` or in any other unit, of the same data type or not): what is observed of
+    `b` – values, unit, data type, period, metadata, datetimes – is what it was.  (The class of change
+    "the operation is generalised to operands in different units and brings `b` to the unit of `a` in
+    place" contradicts this statement; the correspondence runs the arithmetic on pairs in different units.) -/
+theorem C14_arith_operand_kept {m : Mode} {h h' : Heap} {live : List Nat} {c r x : Nat} {bop : BinOp}
+    (inv : Inv anyFP h live) (hr : r ∈ live) (e : derive m h c (.arith bop (.coll r)) = .ok (h', x)) :
+    obsA h' r = obsA h r ∧ (c ∈ live → obsA h' c = obsA h c) :=
+  ⟨C14_args_unchanged_derive inv e r hr, fun hc => C14_args_unchanged_derive inv e c hc⟩
+
+/-- **The result of arithmetic does not look at the header of the second operand**: two second operands
+    of the same class with the same numbers – in different units, of different data types, with different
+    metadata, mutable or not – give the same result spec (the code combines the numbers as they stand and
+    takes unit, data type, period and metadata from the first operand). -/
+theorem C14_arith_ignores_operand_header {m : Mode} {h : Heap} {c r r' : Nat} {bop : BinOp} {o o' : Src}
+    (ho : src h r = .ok o) (ho' : src h r' = .ok o') (hcls : o.k.cls = o'.k.cls) (hv : o.vals = o'.vals) :
+    specOf m h c (.arith bop (.coll r)) = specOf m h c (.arith bop (.coll r')) := by
+  cases hs : src h c with
+  | error x => simp [specOf, hs, bind, Except.bind]
+  | ok s => simp only [specOf, hs, ho, ho', bind, Except.bind, hcls, hv]
+
+/-- Non-vacuity: a Celsius and a Fahrenheit daily collection with the same numbers are such a pair
+    (same class, same numbers, units 0 = C and 1 = F). -/
+example :
+    ((src (build (build Heap.empty .daily true false 0 0 [1, 1, 0, 1, 2, 23, 1, 0] [] [1, 2] [5, 6]).1
+        .daily true false 0 1 [1, 1, 0, 1, 2, 23, 1, 0] [] [1, 2] [5, 6]).1
+      (build Heap.empty .daily true false 0 0 [1, 1, 0, 1, 2, 23, 1, 0] [] [1, 2] [5, 6]).2).toOption.map
+        fun o => (o.k.cls, o.vals, o.hd.unit)) = some (.daily, [5, 6], 0) ∧
+    ((src (build (build Heap.empty .daily true false 0 0 [1, 1, 0, 1, 2, 23, 1, 0] [] [1, 2] [5, 6]).1
+        .daily true false 0 1 [1, 1, 0, 1, 2, 23, 1, 0] [] [1, 2] [5, 6]).1
+      (build (build Heap.empty .daily true false 0 0 [1, 1, 0, 1, 2, 23, 1, 0] [] [1, 2] [5, 6]).1
+        .daily true false 0 1 [1, 1, 0, 1, 2, 23, 1, 0] [] [1, 2] [5, 6]).2).toOption.map
+        fun o => (o.k.cls, o.vals, o.hd.unit)) = some (.daily, [5, 6], 1) := by decide +kernel
+
+/-- **A new composite and the settings of everything that was there.**  After any step that makes a
+    composite `w'` separated from what exists (`Wea.from_dict`, `Wea.duplicate()`, every `Wea.filter_by_*`),
+    `w'.metadata[k] = v` changes nothing that was there before – in particular not the Wea it was derived
+    from, nor what that Wea reports through the collections it computes (they are read off its observed
+    metadata). -/
+theorem C14_fresh_comp_metadata_edit {h h1 h2 : Heap} {live : List Nat} {w' k : Nat} {v : MV}
+    (inv : Inv anyFP h live) (fr : Fresh anyFP h h1 w') (e2 : compMetaSet h1 w' k v = .ok h2) :
+    ∀ b ∈ live, obsA h2 b = obsA h b := by
+  obtain ⟨inv1, keep, hge⟩ := C14_wea_fresh_separated inv fr
+  have hw' : w' ∈ live ++ [w'] := by simp
+  obtain ⟨_, fr2⟩ := C14_frame_comp_metadata inv1 hw' e2
+  intro b hb
+  have hlt : b < h.next := live_lt inv b hb
+  have hne : b ≠ w' := Nat.ne_of_lt (Nat.lt_of_lt_of_le hlt hge)
+  rw [fr2 b (by simp [hb]) hne, keep b hb]
+
+/-- The other direction: `w.metadata[k] = v` on a Wea that was there leaves the new composite as it was
+    made. -/
+theorem C14_source_metadata_edit_after_fresh {h h1 h2 : Heap} {live : List Nat} {w w' k : Nat} {v : MV}
+    (inv : Inv anyFP h live) (hw : w ∈ live) (fr : Fresh anyFP h h1 w')
+    (e2 : compMetaSet h1 w k v = .ok h2) : obsA h2 w' = obsA h1 w' := by
+  obtain ⟨inv1, _, hge⟩ := C14_wea_fresh_separated inv fr
+  have hlt : w < h.next := live_lt inv w hw
+  have hne : w' ≠ w := Nat.ne_of_gt (Nat.lt_of_lt_of_le hlt hge)
+  exact (C14_frame_comp_metadata inv1 (by simp [hw]) e2).2 w' (by simp) hne
+
+/-- **A filtered Wea does not keep the metadata dict of its source** (class of change "a helper hands the
+    source's dictionary itself to the new object"): after `w' = w.filter_by_*(..)` an edit of
+    `w'.metadata` leaves `w` (and every other live object) as it was, and an edit of `w.metadata` leaves
+    `w'` as it was made. -/
+theorem C14_wea_filter_metadata_separate {h h1 h2 : Heap} {live : List Nat} {w w' k : Nat} {v : MV} {op : DOp}
+    (inv : Inv anyFP h live) (hw : w ∈ live) (e1 : weaFilter h w op = .ok (h1, w')) :
+    (compMetaSet h1 w' k v = .ok h2 → ∀ b ∈ live, obsA h2 b = obsA h b) ∧
+    (compMetaSet h1 w k v = .ok h2 → obsA h2 w' = obsA h1 w') :=
+  ⟨fun e2 => C14_fresh_comp_metadata_edit inv (weaFilter_fresh inv.1 e1) e2,
+   fun e2 => C14_source_metadata_edit_after_fresh inv hw (weaFilter_fresh inv.1 e1) e2⟩
+
+/-- The same for `Wea.duplicate()`. -/
+theorem C14_wea_duplicate_metadata_separate {h h1 h2 : Heap} {live : List Nat} {w w' k : Nat} {v : MV}
+    (inv : Inv anyFP h live) (hw : w ∈ live) (e1 : weaDup h w = .ok (h1, w')) :
+    (compMetaSet h1 w' k v = .ok h2 → ∀ b ∈ live, obsA h2 b = obsA h b) ∧
+    (compMetaSet h1 w k v = .ok h2 → obsA h2 w' = obsA h1 w') :=
+  ⟨fun e2 => C14_fresh_comp_metadata_edit inv (weaDup_fresh inv.1 e1) e2,
+   fun e2 => C14_source_metadata_edit_after_fresh inv hw (weaDup_fresh inv.1 e1) e2⟩
+
 end LbHeap
